@@ -9,7 +9,7 @@ partial def loop (h : IO.FS.Stream) (out : IO.FS.Stream) (judge : String → Str
   loop h out judge
 
 def engines : List (String × (String → String → String)) :=
-  [("commitment", cmJudge)]
+  [("commitment", cmJudge), ("nextconfig", ncJudge), ("logcache", lcJudge), ("compaction", cpJudge)]
 
 def main (args : List String) : IO UInt32 := do
   match args with
